@@ -373,6 +373,46 @@ def r18_8(ctx):
                   "caller's values leak into every test case" % (sorted(set(bad)) or "not derived from testcase.config.environment"))
 
 
+RESOLVING = {"canonical_path", "canonicalize", "read_link", "fs::canonicalize", "fs::read_link", "Path::canonicalize", "Path::read_link"}
+
+
+def r18_9(ctx):
+    """TESTFILE is the name of the document that was given, TESTDIR the (canonical) directory it was given in: split_path_abs takes the file name
+    from the path as given and resolves only the directory. Resolving the final component turns `suite/link.md -> ../shared/checks.md` into
+    TESTFILE=checks.md, TESTDIR=<..>/shared - fixtures next to the given document are no longer found, TESTFILE disagrees with SCRUT_TEST"""
+    prog = ctx.prog
+    f = prog.fn("split_path_abs")
+    o = Origins(f)
+    ok_tuples = []
+    r = o.local(0)
+    for alt in (r.kids if r.kind == "phi" else [r]):
+        a = peel(alt)
+        if a.kind == "agg" and str(a.a[0]).endswith("Ok"):
+            t = peel(a.kids[0])
+            if t.kind == "agg" and len(t.kids) == 2:
+                ok_tuples.append(t)
+    if not ok_tuples:
+        raise AnchorError("split_path_abs: no Ok((directory, file)) result")
+    for i, t in enumerate(ok_tuples):
+        d, fl = t.kids
+        fnames = {method_name(c) for c in fl.call_names()}
+        resolved = sorted(m for m in fnames if m.split("::")[-1] in {x.split("::")[-1] for x in RESOLVING})
+        ctx.check("Path::file_name" in fnames and not resolved and any(n.kind == "arg" and n.a == 1 for n in fl.walk()), "file-name-as-given#%d" % i, f.where(),
+                  "the file name is the last component of the path as given (Path::file_name, nothing resolved)",
+                  "the file name passes %s: for a document that is a symbolic link TESTFILE becomes the name of the link's target (and the work directory is named after it), "
+                  "not the document scrut was given" % (resolved or sorted(fnames)))
+        alts = [peel(x) for x in (peel(d).kids if peel(d).kind == "phi" else [d])]
+        good = all(any(method_name(c).split("::")[-1] in ("canonical_path", "canonicalize", "current_dir") for c in x.call_names()) for x in alts)
+        ctx.check(good, "directory-canonical#%d" % i, f.where(), "the directory is the canonical parent directory (or the current directory)",
+                  "the directory is %s" % peel(d).show()[:120])
+    # the directory that is resolved is the *parent*: PathBuf::pop is applied before canonical_path
+    pops = [bb for bb, t in f.calls() if mname(t) == "PathBuf::pop"]
+    cans = [bb for bb, t in f.calls() if (callee_name(t) or "").split("::")[-1] in ("canonical_path", "canonicalize")]
+    ctx.check(bool(pops) and all(any(f.dominates(pb, cb) for pb in pops) for cb in cans), "parent-resolved", f.where(),
+              "only the parent directory is resolved (pop() dominates every canonical_path call)",
+              "canonical_path is applied before the file name was split off: the final component (the document itself) is resolved")
+
+
 def run(ctx):
     ctx.run_rule("R18.1", "ownership: every directory/file creating call yields an owned TempDir (Ephemeral / live local), a path beneath one, or is leaked only under keep_temporary_directories [E-SITE]", r18_1, floor=11)
     ctx.run_rule("R18.2", "leak APIs only on the keep edge; no process::exit/abort; no panic=abort; main returns ExitCode [E-SITE]", r18_2, floor=5)
@@ -380,5 +420,6 @@ def run(ctx):
     ctx.run_rule("R18.5", "the bash state file is written inside the owned per-document TempDir: the TempDir path reaches the template unmodified, in a double-quoted position (shared with C12 R12.1/R12.2) [E-FLOW]", r18_5, floor=8)
     ctx.run_rule("R18.7", "scrut's EXIT handler is armed at one place only and never dumped into the persisted state (no `trap -p` in the template) [template analyzer]", r18_7, floor=3)
     ctx.run_rule("R18.8", "the whole test case environment reaches the child: between config.environment and Exec::env_extend the map is copied / extended only, never filtered [E-FLOW]", r18_8, floor=2)
+    ctx.run_rule("R18.9", "TESTFILE / TESTDIR: split_path_abs takes the file name from the path as given and resolves only the parent directory (a symlinked document keeps its own name and directory) [E-FLOW]", r18_9, floor=3)
     ctx.run_rule("R18.6", "scrut-set variables are fresh per test case only if the state dump excludes them (writer/reader agreement between build_env_vars and BASH_EXCLUDED_VARIABLES) [E-TABLE]", r18_6, floor=3)
     ctx.run_rule("R18.4", "environment table: documented variables == variables set (Cram extras on the cram_compat edge); SHELL, SCRUT_TEST=<file>:<line> per test case; applied in test/update/create [E-TABLE]", r18_4, floor=12)
